@@ -181,7 +181,7 @@ def run_impl(sc):
                         if x[2] != -1:
                             kw['name'] = 'n%d' % x[2]
                         if x[3] != -1:
-                            kw['id_'] = assets[x[3]].id
+                            kw['id_'] = int(str(assets[x[3]].id))     # an equal id, not the very same int object
                         if x[4] != -1:
                             kw['type_'] = classes[x[4]]
                         if x[5] != -1:
